@@ -183,7 +183,7 @@ impl NamedPipeServer {
     }
 
     /// Close the server. If the returned future is dropped before polling, the
-    /// server won't be closed.
+    /// server is dropped like any other handle.
     ///
     /// See [`File::close`] for more details.
     pub fn close(self) -> impl Future<Output = io::Result<()>> {
@@ -357,7 +357,7 @@ impl NamedPipeClient {
     }
 
     /// Close the client. If the returned future is dropped before polling, the
-    /// client won't be closed.
+    /// client is dropped like any other handle.
     ///
     /// See [`File::close`] for more details.
     pub fn close(self) -> impl Future<Output = io::Result<()>> {
